@@ -679,6 +679,7 @@ def normalize_merchant(
 def _is_expression_pattern(pattern: str) -> bool:
     """Check if a pattern is an expression (uses function syntax) vs a regex."""
     import re
+    from tally import expr_parser
     # Expression patterns start with:
     # - Function calls like contains(), normalized(), extract(), etc.
     # - Field access like field.txn_type
@@ -687,10 +688,19 @@ def _is_expression_pattern(pattern: str) -> bool:
     # - Variable comparisons like amount > 500, month == 12, source == "Amex"
     function_pattern = r'^(contains|normalized|anyof|startswith|fuzzy|regex|extract|split|substring|trim|exists)\s*\('
     variable_pattern = r'^(amount|month|year|day|source|description)\s*[<>=!]'
-    return bool(re.match(function_pattern, pattern)) or \
-           bool(re.match(variable_pattern, pattern)) or \
-           pattern.startswith('field.') or \
-           ' and ' in pattern or ' or ' in pattern or pattern.startswith('(')
+    looks_like_expression = bool(re.match(function_pattern, pattern)) or \
+        bool(re.match(variable_pattern, pattern)) or \
+        pattern.startswith('field.') or \
+        ' and ' in pattern or ' or ' in pattern or pattern.startswith('(')
+    if not looks_like_expression:
+        return False
+    # A legacy regex can look like an expression ("(AMAZON|AMZN)", "BED BATH and BEYOND").
+    # Only text the expression language accepts is an expression; the rest stays a regex.
+    try:
+        expr_parser.parse_expression(pattern)
+    except expr_parser.ExpressionError:
+        return False
+    return True
 
 
 def _resolve_dynamic_tags(
